@@ -17,6 +17,17 @@ C14  The tree transformer applies exactly the requested node mapping.
      one key.
  R5  every IR node class is dispatched, in each transformer, to a handler that
      consults the mapper.
+ R6  replacement guard: in ``visit_Node`` / ``visit_ScopedNode`` of ``Transformer``
+     a mapped node is replaced by ``mapper[o]`` unless it was put there by a
+     one-to-many mapping that contains it; the guard in front of ``return
+     handle._rebuild(...)`` is evaluated for the four shapes of a handle (another
+     node, a node equal to ``o``, a tuple without ``o``, a tuple with ``o``).
+ R7  tuple filter: ``visit_tuple`` drops only ``None`` and empty sub-tuples; the
+     filter expression is evaluated over None, (), a non-empty tuple, a plain
+     node, and block nodes that define ``__len__`` (``Section`` / ``Associate``)
+     with empty and non-empty body -- an unmapped node is never dropped.
+     (``as_tuple`` / ``is_iterable`` are modelled: nodes are atomic, tuples are
+     iterated; the model is tied to ``_is_atomic_iterable_ir_node`` in their source.)
 Not decided: that the result equals a reference rebuild.
 """
 import ast
@@ -40,6 +51,108 @@ META = dict(
 
 FILE = 'loki/ir/transformer.py'
 CLASSES = ['Transformer', 'NestedTransformer', 'MaskedTransformer', 'NestedMaskedTransformer']
+
+
+class _N:                      # abstract plain node (no __len__)
+    def __init__(self, tag):
+        self.tag = tag
+
+    def __eq__(self, other):       # IR nodes compare structurally
+        return isinstance(other, _N) and self.tag == other.tag
+
+    def __hash__(self):
+        return hash(self.tag)
+
+    def __repr__(self):
+        return f'<node {self.tag}>'
+
+
+class _Block(_N):                  # Section / Associate: __len__ is the length of the body
+    def __init__(self, tag, n):
+        super().__init__(tag)
+        self.n = n
+
+    def __len__(self):
+        return self.n
+
+
+def _as_tuple(x):
+    return () if x is None else (tuple(x) if isinstance(x, (tuple, list)) else (x,))
+
+
+def _is_iterable(x):
+    return isinstance(x, (tuple, list))
+
+
+def _r6_r7(ctx):
+    from sa.miniev import ev_ext, Unknown
+    m = ctx.model
+    ctx.rule('R6', 'Transformer.visit_Node / visit_ScopedNode: the guard of `return handle._rebuild(**handle.args)` is true for every handle '
+                   'shape except a tuple that contains the visited node')
+    ctx.rule('R7', 'visit_tuple (Transformer, NestedTransformer): the final filter keeps every node (also empty Section/Associate) and '
+                   'drops exactly None and empty tuples')
+    util = m.module_by_path('loki/tools/util.py')
+    for fn in ('as_tuple', 'is_iterable'):
+        f = util.functions.get(fn)
+        if f is None or '_is_atomic_iterable_ir_node' not in ast.unparse(f.node):
+            raise AnalysisError(f'loki.tools.util.{fn} no longer treats iterable IR nodes as atomic: the model used by R6/R7 is stale')
+    T = m.get_class(FILE, 'Transformer')
+    o = _N('o')
+    shapes = {'another node': (_N('h'), True), 'a node equal to o': (_N('o'), True),
+              'a tuple without o': ((_N('a'), _N('b')), True), 'a tuple with o': ((_N('a'), _N('o')), False)}
+    n6 = 0
+    for hn in ('visit_Node', 'visit_ScopedNode'):
+        f = T.function(hn)
+        rets = [(n, g) for n, g in X.nodes_with_guards(f.node, lambda x: isinstance(x, ast.Return) and x.value is not None
+                                                       and 'handle._rebuild' in ast.unparse(x.value), early=True)]
+        if len(rets) != 1:
+            raise AnalysisError(f'Transformer.{hn}: replacement return not found')
+        node, guards = rets[0]
+        # only the guards that talk about the handle shape
+        gs = [g for g in guards if 'handle' in g and 'is None' not in g and 'self.mapper' not in g]
+        n6 += 1
+        for name, (h, want) in shapes.items():
+            env = {'handle': h, 'o': o, 'as_tuple': _as_tuple, 'is_iterable': _is_iterable}
+            try:
+                got = all(ev_ext(ast.parse(g, mode='eval').body, env) for g in gs)
+            except Unknown as u:
+                raise AnalysisError(f'Transformer.{hn}: replacement guard uses `{u}`, outside the evaluated fragment')
+            inst = f'Transformer.{hn}:replace:{name}'
+            if bool(got) == want:
+                ctx.judge('R6', inst, facts={'guard': gs, 'replaced': bool(got)})
+            else:
+                ctx.violation('R6', inst, f'{f.module.relpath}:{node.lineno}',
+                              f'with mapper[o] = {name} the guard `{" and ".join(gs)}` is {bool(got)}: the mapped node is '
+                              f'{"replaced again" if got else "not replaced but traversed, and the mapper is applied to its children"} '
+                              f'(e.g. {{loop: loop_clone, stmt_in_loop: None}} must insert loop_clone as it is)', facts={'guard': gs})
+    ctx.floor('R6', 'replacement guards', n6, 2)
+    n7 = 0
+    items = {'None': (None, False), 'empty tuple': ((), False), 'non-empty tuple': ((_N('a'),), True), 'plain node': (_N('a'), True),
+             'Section/Associate with empty body': (_Block('s', 0), True), 'Section/Associate with body': (_Block('s', 2), True)}
+    for cn in ('Transformer', 'NestedTransformer'):
+        C = m.get_class(FILE, cn)
+        f = C.function('visit_tuple')
+        rets = [r for r in ast.walk(f.node) if isinstance(r, ast.Return) and isinstance(r.value, ast.Call) and r.value.args
+                and isinstance(r.value.args[0], ast.GeneratorExp)]
+        if not rets:
+            raise AnalysisError(f'{cn}.visit_tuple: filtering return not found')
+        gen = rets[-1].value.args[0]
+        var = gen.generators[0].target.id
+        n7 += 1
+        for name, (it, want) in items.items():
+            env = {var: it, 'as_tuple': _as_tuple, 'is_iterable': _is_iterable}
+            try:
+                got = all(bool(ev_ext(c, env)) for c in gen.generators[0].ifs)
+            except Unknown as u:
+                raise AnalysisError(f'{cn}.visit_tuple: filter uses `{u}`, outside the evaluated fragment')
+            inst = f'{cn}.visit_tuple:filter:{name}'
+            if got == want:
+                ctx.judge('R7', inst)
+            else:
+                ctx.violation('R7', inst, f'{f.module.relpath}:{rets[-1].lineno}',
+                              f'the filter `{" and ".join(ast.unparse(c) for c in gen.generators[0].ifs)}` {"keeps" if got else "drops"} '
+                              f'{name}: {"an unmapped node disappears from its parent" if not got else "None / empty entries stay in the body"}')
+    ctx.floor('R7', 'visit_tuple filters', n7, 2)
 
 
 def run(ctx):
@@ -186,8 +299,16 @@ def run(ctx):
                               f'{f.qualname} (handler for {n.name} in {c.name}) never consults self.mapper: a mapping for such a node '
                               f'is silently ignored', instance=inst)
 
+    _r6_r7(ctx)
 
 MUTANTS = [
+    Mutant('replace-guard-as-tuple', FILE, "            if not is_iterable(handle) or o not in handle:\n                return handle._rebuild(**handle.args)\n\n        rebuilt = tuple(",
+           "            if o not in as_tuple(handle):\n                return handle._rebuild(**handle.args)\n\n        rebuilt = tuple(", expect=('R6', 'visit_Node:replace:a node equal to o')),
+    Mutant('tuple-filter-by-len', FILE, "        visited = tuple(self.visit(i, **kwargs) for i in o)\n\n        # Strip empty sublists/subtuples or None entries\n        return tuple(i for i in visited if i is not None and as_tuple(i))\n",
+           "        visited = tuple(self.visit(i, **kwargs) for i in o)\n\n        # Strip empty sublists/subtuples or None entries\n        return tuple(i for i in visited if i is not None and (not hasattr(i, '__len__') or len(i) > 0))\n",
+           expect=('R7', 'Transformer.visit_tuple:filter:Section/Associate with empty body')),
+    Mutant('neutral-replace-guard-demorgan', FILE, "            if not is_iterable(handle) or o not in handle:\n                return handle._rebuild(**handle.args)\n\n        rebuilt = tuple(",
+           "            if not (is_iterable(handle) and o in handle):\n                return handle._rebuild(**handle.args)\n\n        rebuilt = tuple(", expect=None),
     Mutant('handler-ignores-mapper', FILE,
            "    def visit_InternalNode(self, o, **kwargs):\n        \"\"\"\n        Handler for :any:`InternalNode` that are included in the tree as long\n        as any :attr:`body` node is included.\n        \"\"\"\n        if o in self.mapper:\n            return super().visit_Node(o, **kwargs)\n",
            "    def visit_InternalNode(self, o, **kwargs):\n        \"\"\"\n        Handler for :any:`InternalNode` that are included in the tree as long\n        as any :attr:`body` node is included.\n        \"\"\"\n",
@@ -195,7 +316,7 @@ MUTANTS = [
     Mutant('masked-visit-bypasses-record', FILE, "        return super().visit(o, *args, **kwargs)\n\n    def visit_object(self, o, **kwargs):\n        if kwargs['parent_active']:",
            "        return Visitor.visit(self, o, *args, **kwargs)\n\n    def visit_object(self, o, **kwargs):\n        if kwargs['parent_active']:",
            expect=('R3', 'MaskedTransformer.visit')),
-    Mutant('rebuild-always-inplace', FILE, "        if self.inplace:\n            o._update(*children, **args_frozen)\n            return o\n",
+    Mutant('rebuild-always-inplace', FILE, "        if self.inplace:\n            # Updated nodes in place, if requested\n            o._update(*children, **args_frozen)\n            return o\n",
            "        if self.inplace or not children:\n            o._update(*children, **args_frozen)\n            return o\n", expect=('R2', '_rebuild:inplace')),
     Mutant('undefined-helper', FILE, "        rebuilt = tuple(self.visit(i, **kwargs) for i in o.children)\n        return self._rebuild(o, rebuilt)\n\n    def visit_ScopedNode(self, o, **kwargs):\n        \"\"\"\n        Handler for :class:`ScopedNode` objects.\n\n        It replaces",
            "        rebuilt = tuple(self.visit(i, **kwargs) for i in o.children)\n        return self._rebuild_node(o, rebuilt)\n\n    def visit_ScopedNode(self, o, **kwargs):\n        \"\"\"\n        Handler for :class:`ScopedNode` objects.\n\n        It replaces",
